@@ -42,6 +42,9 @@ MONO_ROOTS = [
     "yrs::update::Update::integrate", "yrs::transaction::TransactionMut::apply_delete", "yrs::transaction::TransactionMut::apply_update",
 ]
 
+# properties whose anchored mechanisms are compiled only with feature `weak` (quotations / links)
+NEEDS_WEAK = {"C20"}
+
 CONFIGS = {
     # tag: cargo args
     "default": ["-p", "yrs", "-p", "yffi"],
@@ -134,11 +137,13 @@ def ensure_facts(tags):
                 fpath = os.path.join(out, "%s.%s.json" % (pk, tag))
                 if not os.path.exists(fpath) or os.path.getmtime(fpath) < t0 - 1:
                     raise SystemExit("ylint: fact file %s was not produced by this build (fail closed)" % fpath)
-        # keep the cache small: drop fact dirs other than the 6 most recent
+        # keep the cache small: drop fact dirs other than the 8 most recent, never one touched in the last hour
+        # (another check process may be about to load it)
         base = os.path.join(CACHE, "facts")
+        os.utime(out, None)
         ds = sorted((os.path.getmtime(os.path.join(base, d)), d) for d in os.listdir(base))
-        for _, d in ds[:-6]:
-            if d != hsh:
+        for mt, d in ds[:-8]:
+            if d != hsh and time.time() - mt > 3600:
                 shutil.rmtree(os.path.join(base, d), ignore_errors=True)
         return out
     finally:
@@ -173,6 +178,38 @@ def main():
     mod = importlib.import_module("rules.%s" % prop.lower())
     rep = R.Report(prop, a.tier)
     extra = mod.check(ctx, rep) or {}
+    # thorough: the same rules over the other cfg arms (yrs[weak,sync] and yrs without features)
+    alt_summary = {}
+    for tag in tags:
+        if tag == "default":
+            continue
+        if tag == "noweak" and prop in NEEDS_WEAK:
+            alt_summary[tag] = "skipped: the property's anchors only exist with feature `weak`"
+            continue
+        import copy
+        ctx2 = copy.copy(ctx)
+        ctx2.yrs = ctx.alt[tag]
+        ctx2.tier = "quick"  # witnesses etc. run once, in the default configuration
+        sub = R.Report(prop, a.tier)
+        try:
+            mod.check(ctx2, sub)
+        except Exception as e:  # a rule crashing on another configuration is a failure of the check, not a pass
+            sub.obs.append(R.Ob("config", "<%s>" % tag, "rule-crash", False, "rules crashed on configuration %s: %r" % (tag, e), None, False))
+        have = {o.key: o for o in rep.obs}
+        nviol = 0
+        for o in sub.obs:
+            if o.inventory:
+                continue
+            if not o.ok:
+                nviol += 1
+                prev = have.get(o.key)
+                if prev is None or prev.ok:
+                    o.detail = "[configuration %s] %s" % (tag, o.detail)
+                    rep.obs.append(o)
+            rep.analysed_fns |= sub.analysed_fns
+        alt_summary[tag] = "%d obligations, %d not discharged" % (len([o for o in sub.obs if not o.inventory]), nviol)
+    if alt_summary:
+        extra["other_configurations"] = alt_summary
     extra.setdefault("configurations", tags)
     extra.setdefault("yrs_function_bodies", ctx.yrs.n_bodies)
     extra.setdefault("yffi_function_bodies", ctx.yffi.n_bodies)
